@@ -46,8 +46,11 @@ def _single_loop(fn, label) -> ast.For:
 
 def _par_names_source(repo, ci, chk, rule):
     init = repo.method(ci, "__init__")[1]
+    from .common import assigned_values
     asg = [n for n in ast.walk(init) if isinstance(n, ast.Assign) and path_of(n.targets[0]) == "self.par_names"]
-    ok = len(asg) == 1 and unparse(asg[0].value) == "self.target.get_parameter_names()"
+    tp = func_params(init)[1]
+    vals = assigned_values(repo, ci, init, "self.par_names")
+    ok = len(vals) == 1 and vals[0] in ("self.target.get_parameter_names()", f"{tp}().get_parameter_names()")
     others = []
     for kind, name, fn in ci.all_functions():
         for n in ast.walk(fn):
@@ -202,7 +205,8 @@ def _hybrid(chk, repo):
     # R5
     init = repo.method(ci, "__init__")[1]
     asg = [n for n in ast.walk(init) if isinstance(n, ast.Assign) and path_of(n.targets[0]) == "self.target"]
-    chk.add("C09-R5", f"{ci.qual}.__init__", len(asg) == 1 and unparse(asg[0].value) == f"{func_params(init)[1]}()", site(repo, init),
+    from .common import assigned_values as _av
+    chk.add("C09-R5", f"{ci.qual}.__init__", _av(repo, ci, init, "self.target") == [f"{func_params(init)[1]}()"], site(repo, init),
             "self.target = target()", "sampler does not work on a conditioned copy of the joint", init)
     # R6: cache coherence
     derived = _target_derived_keys(repo)
@@ -350,7 +354,8 @@ def _legacy(chk, repo):
             "resume from samples[:, -1]; warm-up column only if no sample was ever stored", "; ".join(problems), gip_src)
     init = repo.method(ci, "__init__")[1]
     asg = [n for n in ast.walk(init) if isinstance(n, ast.Assign) and path_of(n.targets[0]) == "self.target"]
-    chk.add("C09-R5", f"{ci.qual}.__init__", len(asg) == 1 and unparse(asg[0].value) == f"{func_params(init)[1]}()", site(repo, init),
+    from .common import assigned_values as _av
+    chk.add("C09-R5", f"{ci.qual}.__init__", _av(repo, ci, init, "self.target") == [f"{func_params(init)[1]}()"], site(repo, init),
             "self.target = target()", "sampler does not work on a conditioned copy of the joint", init)
 
 
